@@ -139,6 +139,14 @@ def correspond(ctx, scale):
                 # training step with EMA updates enabled, the law holds
                 vq.requires_grad_(False)
                 dist['frozen_parameter_steps'] = dist.get('frozen_parameter_steps', 0) + 1
+            if t > 0 and (t + ci) % 6 == 5:
+                # AGED state: one code as it is after a long run without being selected (running sum and count decayed by 2^-40; a legal state that
+                # short histories never reach) - the law for the next step is the same law
+                with torch.no_grad():
+                    k_old = rng.randrange(K)
+                    cb.embed_avg[:, k_old] *= 2.0 ** -40
+                    cb.cluster_size[:, k_old] *= 2.0 ** -40
+                dist['aged_code_states'] = dist.get('aged_code_states', 0) + 1
             if t > 0 and (t + ci) % 5 == 4:
                 # decay SCHEDULE: the public attribute is changed on the live codebook; the next step follows the decay the module has now
                 cb.decay = rng.choice([0.5, 0.25, 0.75, 0.0, 1.0, 0.9])
